@@ -39,6 +39,7 @@ type legResult struct {
 }
 
 type violation struct {
+	History  *engine.History
 	Scenario string
 	Build    string
 	Binary   string
@@ -262,8 +263,22 @@ func runLeg(l leg, tier string, batch uint64, workers int, scratch string) (*leg
 			selftestDied = fmt.Sprintf("GOMAXPROCS=%s: %v: %s", gmp, err, tail(se.String(), 600))
 			continue
 		}
+		hasFailure := func(out string) bool {
+			for _, line := range strings.Split(strings.TrimSpace(out), "\n") {
+				if f := strings.Fields(line); len(f) >= 4 && f[3] != "ok" {
+					return true
+				}
+			}
+			return false
+		}
 		if ref == "" {
 			ref = so.String()
+		} else if so.String() != ref && (hasFailure(ref) || hasFailure(so.String())) {
+			// Runs of this sample VIOLATE invariants, and differently from process
+			// to process: the code under test has hidden state whose effect depends
+			// on the process (e.g. a per-P sync.Pool). That is for the workers to
+			// report as a violation, not a determinism verdict on the harness.
+			selftestDied = fmt.Sprintf("GOMAXPROCS=%s: the sample contains invariant violations that differ between processes", gmp)
 		} else if so.String() != ref {
 			return nil, fatal2("determinism self-test: scenario %s differs between processes (GOMAXPROCS=%s)\n--- ref\n%s--- got\n%s", l.scenario, gmp, tail(ref, 1500), tail(so.String(), 1500))
 		}
@@ -334,7 +349,40 @@ func runLeg(l leg, tier string, batch uint64, workers int, scratch string) (*leg
 				lr.hashes[binary.LittleEndian.Uint64(hb[j:])] = struct{}{}
 			}
 			for _, f := range wr.Failures {
-				lr.violations = append(lr.violations, violation{Scenario: l.scenario, Build: info.Build, Binary: l.binary, Seed: f.Seed, Fail: f.Fail, Plan: f.Plan, Min: true, Tried: f.ShrinkTried})
+				v := violation{Scenario: l.scenario, Build: info.Build, Binary: l.binary, Seed: f.Seed, Fail: f.Fail, Plan: f.Plan, Min: true, Tried: f.ShrinkTried}
+				// Confirm in a fresh process now; if the plan alone passes there, the
+				// failure depends on what EARLIER runs of this worker left behind:
+				// find the shortest suffix of the worker's run history that reproduces it.
+				o, died, _, _, _, _ := execChild(l, dir, f.Plan, 600*time.Second)
+				if !died && (o.Fail == nil || o.Fail.Invariant != f.Fail.Invariant) {
+					var hist []uint64
+					for x := uint64(i); x <= f.RunIndex; x += uint64(shards) {
+						hist = append(hist, x)
+					}
+					var found []uint64
+					var ff *engine.Failure
+					var fp json.RawMessage
+					for _, L := range []int{2, 3, 5, 9, 17, 33, 129, 1025, len(hist)} {
+						if L > len(hist) {
+							L = len(hist)
+						}
+						cand := hist[len(hist)-L:]
+						g, at, pl, ok := runHistory(l, dir, tier, batch, cand)
+						if ok && g != nil && at == f.RunIndex && g.Invariant == f.OrigFail.Invariant {
+							found, ff, fp = cand, g, pl
+							break
+						}
+						if L == len(hist) {
+							break
+						}
+					}
+					if found == nil {
+						return nil, fatal2("worker %d of %s reported %s at run %d; it reproduces neither as a plan in a fresh process nor by re-running the worker's run history", i, l.scenario, f.Fail, f.RunIndex)
+					}
+					v.Fail, v.Plan, v.Min = ff, fp, false
+					v.History = &engine.History{Tier: tier, Indices: found, Note: "the plan of the last run passes in a fresh process; the violation needs the state left behind by the earlier runs listed here (same process, in this order)"}
+				}
+				lr.violations = append(lr.violations, v)
 			}
 			continue
 		}
@@ -435,6 +483,36 @@ func runLeg(l leg, tier string, batch uint64, workers int, scratch string) (*leg
 	}
 	lr.wall = time.Since(start).Seconds()
 	return lr, 0
+}
+
+// runHistory executes the given run indices in order in ONE fresh worker
+// process and returns the failure it reports (nil if none) and the index at
+// which it occurred.
+func runHistory(l leg, dir string, tier string, batch uint64, indices []uint64) (*engine.Failure, uint64, json.RawMessage, bool) {
+	hd := filepath.Join(dir, "history")
+	_ = os.RemoveAll(hd)
+	_ = os.MkdirAll(hd, 0o755)
+	strs := make([]string, len(indices))
+	for i, v := range indices {
+		strs[i] = fmt.Sprint(v)
+	}
+	cmd := exec.Command(l.binary, "worker", "-scenario", l.scenario, "-tier", tier, "-seed", fmt.Sprint(batch),
+		"-worker", "0", "-of", "1", "-dir", hd, "-nomin", "-indices", strings.Join(strs, ","))
+	cmd.Env = childEnv(l.info, hd, "GOMAXPROCS=2")
+	r := runProc(cmd, filepath.Join(hd, "status-0"), 3600*time.Second)
+	if r.kind != "" || r.exit != 0 {
+		return nil, 0, nil, false
+	}
+	b, err := os.ReadFile(filepath.Join(hd, "result-0.json"))
+	if err != nil {
+		return nil, 0, nil, false
+	}
+	var wr WorkerResult
+	if json.Unmarshal(b, &wr) != nil || len(wr.Failures) == 0 {
+		return nil, 0, nil, true
+	}
+	f := wr.Failures[0]
+	return f.OrigFail, f.RunIndex, f.OrigPlan, true
 }
 
 func tail(s string, n int) string {
@@ -546,14 +624,36 @@ func cmdSupervise(args []string) int {
 		sort.SliceStable(lr.violations, func(i, j int) bool { return lr.violations[i].Seed < lr.violations[j].Seed })
 		for _, v := range lr.violations {
 			// confirm in a fresh process: must fail the same way
-			o, died, dk, ec, se, st := execChild(lr.leg, filepath.Join(*scratch, lr.leg.scenario), v.Plan, 600*time.Second)
+			var o engine.Outcome
+			var died bool
+			var dk, se string
+			var ec int
+			var st engine.StatusSnapshot
 			reproduced := false
-			if v.Death {
+			if v.History != nil {
+				g, at, _, ok := runHistory(lr.leg, filepath.Join(*scratch, lr.leg.scenario), v.History.Tier, *batch, v.History.Indices)
+				reproduced = ok && g != nil && g.Invariant == v.Fail.Invariant && at == v.History.Indices[len(v.History.Indices)-1]
+				o.Fail = g
+			} else {
+				o, died, dk, ec, se, st = execChild(lr.leg, filepath.Join(*scratch, lr.leg.scenario), v.Plan, 600*time.Second)
+			}
+			if v.History != nil {
+				// decided above
+			} else if died {
 				df := deathFailure(lr.leg.info, dk, ec, se, st)
-				reproduced = died && df != nil && df.Invariant == v.Fail.Invariant
+				reproduced = df != nil && df.Invariant == v.Fail.Invariant
+			} else if v.Death {
+				// minimisation of a death may end in a plan that fails the same
+				// invariant without killing the process (e.g. a recoverable panic
+				// instead of an out-of-memory abort)
+				reproduced = o.Fail != nil && o.Fail.Invariant == v.Fail.Invariant
+				if reproduced {
+					v.Fail = o.Fail
+				}
 			} else {
 				reproduced = o.Fail != nil && o.Fail.Invariant == v.Fail.Invariant && o.Fail.Step == v.Fail.Step
 			}
+			v.Death = died
 			if !reproduced {
 				return fatal2("violation %s (seed %d) did not reproduce in a fresh process: got %v died=%v", v.Fail, v.Seed, o.Fail, died)
 			}
@@ -577,7 +677,7 @@ func cmdSupervise(args []string) int {
 			}
 			seenInv[v.Fail.Invariant] = true
 			rp := engine.Replay{Property: *prop, Scenario: v.Scenario, Build: v.Build, Seed: v.Seed, BatchSeed: *batch,
-				Invariant: v.Fail.Invariant, Step: v.Fail.Step, Detail: v.Fail.Detail, Death: v.Death, Minimised: v.Min, ShrinkTried: v.Tried, Plan: v.Plan}
+				Invariant: v.Fail.Invariant, Step: v.Fail.Step, Detail: v.Fail.Detail, Death: v.Death, Minimised: v.Min, ShrinkTried: v.Tried, Plan: v.Plan, History: v.History}
 			_ = os.MkdirAll(*replays, 0o755)
 			path := filepath.Join(*replays, fmt.Sprintf("%s-%s-%d.json", *prop, strings.ReplaceAll(v.Fail.Invariant, ".", "_"), v.Seed))
 			b, _ := json.MarshalIndent(rp, "", " ")
